@@ -633,10 +633,10 @@ func run(c *vf.Ctx) {
 		r := c.Rng(7)
 		perm := r.Perm(len(nestForms))
 		forms = nil
-		for _, k := range perm[:5] {
+		for _, k := range perm[:3] {
 			forms = append(forms, nestForms[k])
 		}
-		sweep = []int{-12, -1, 0, 1, 2}
+		sweep = []int{-12, -6, -3, -1, 1}
 	} else {
 		for d := -14; d <= 4; d++ {
 			sweep = append(sweep, d)
